@@ -350,6 +350,9 @@ def loops_in(body):
 
 
 def const_int(n):
+    # the compiler's own evaluation of a constant expression (case labels, enumerators): `case SAMPLE_ON_INTERVAL` is `case 2`
+    if n.get("kind") == "ConstantExpr" and str(n.get("value", "")).lstrip("-").isdigit():
+        return int(n["value"])
     n = strip(n, casts=True)
     if n.get("kind") == "IntegerLiteral":
         return int(n["value"])
